@@ -509,6 +509,12 @@ func (x *c08ORun) call(n int64) (granted bool, evals int64) {
 	return g, x.srv.evals.Load() - e0
 }
 
+// twoSided: a denial by the fallback is judged only for a real outage (server
+// closed; whether error replies count as "unreachable" is left open) and only
+// when the caller clock moves in whole seconds (continuous and whole-second
+// refill coincide there).
+func (x *c08ORun) twoSided() bool { return x.whole && x.fault == "close" }
+
 // rescue accounts one call answered by the fallback. false = violation recorded.
 func (x *c08ORun) rescue(n int64, granted bool, where string) bool {
 	s := &x.seg
@@ -572,7 +578,7 @@ func (x *c08ORun) rescue(n int64, granted bool, where string) bool {
 		return true
 	}
 	// denied: the level was below n
-	if x.whole && n <= x.sc.Burst && s.lo >= fn+c08Eps {
+	if x.twoSided() && n <= x.sc.Burst && s.lo >= fn+c08Eps {
 		x.m.Violate("C08:outage:fallback-under-admission:"+x.fault, x.desc,
 			"%s: fallback denied n=%d although every bucket of rate %d / burst %d consistent with this outage segment holds at least %.3f tokens at caller time %dms",
 			where, n, x.sc.Rate, x.sc.Burst, s.lo, x.clock.UnixMilli())
